@@ -397,6 +397,12 @@ def c05(ctx):
     for s in gen.INVALID_SETTINGS:
         for fn in ("crypt_rn 0 %s %s 32768", "crypt_r 0 %s %s", "crypt - %s %s", "crypt_ra 1 %s %s"):
             cmds.append(fn % (hx(b"pass"), hx(s)))
+    nbound = 0
+    for m in cfgev["E"]:
+        for s in gen.grammar_boundaries(m, rng):
+            cmds.append("crypt_rn 0 %s %s 32768" % (hx(b"pass"), hx(s)))
+            cmds.append(rng.choice(("crypt_r 0 %s %s", "crypt - %s %s", "crypt_ra 1 %s %s")) % (hx(b"pass"), hx(s)))
+            nbound += 1
     ev2 = ctx.run_xcv(cmds)
     v2 = judge(ctx, ev2, "grid", cfgev)
     # the other build option: without failure tokens crypt/crypt_r return NULL on failure
@@ -407,7 +413,7 @@ def c05(ctx):
     v3 = judge(ctx, ev3, "noft", cfg3)
     st, tr = st + st3, tr + tr3
     cov = mc_coverage(ctx, st, tr, [v1, v2, v3], events + ev2 + ev3,
-                      {"behaviours_replayed": len(behs), "byte_grid_points": ngrid,
+                      {"behaviours_replayed": len(behs), "byte_grid_points": ngrid, "grammar_boundary_settings": nbound,
                        "abstract_call_classes_replayed": len(classes),
                        "abstract_call_classes_in_model": len(REQS) * len(SIZES) + 3 * len(REQS),
                        "prior_states_per_class": ["fresh", "holding a success", "holding a failure", "scribbled"],
@@ -1360,7 +1366,7 @@ def c06(ctx):
     cmds = ["hset 0 0 0"]
     n = 0
     for m in E:
-        sets = gen.valid_settings(m, rng, full=not quick)
+        sets = gen.valid_settings(m, rng, full=not quick) + gen.grammar_boundaries(m, rng)
         for s in sets:
             for ph in ((b"", gen.rand_phrase(rng, 5), gen.rand_phrase(rng, 20), gen.rand_phrase(rng, 128), gen.rand_phrase(rng, 129))
                        if quick else gen.phrases(rng)):
@@ -1648,6 +1654,10 @@ def c02_corpus(rng, E, quick, fixed):
         for s in gen.numeric_wrap_settings():
             if gen.PREFIX[m] and s.startswith(gen.PREFIX[m]):
                 out.append((b"pw", s))
+        # the edges of the method's setting grammar (accepted or not: Settings.tla decides; what they hash to: the released library)
+        for s in gen.grammar_boundaries(m, rng):
+            out.append((b"pw", s))
+            out.append((gen.rand_phrase(rng, 9, eightbit=False), s))
         ls = lens if (not quick or cheap) else [x for i, x in enumerate(lens) if i % 2 == 0 or x in (8, 9, 64, 72, 73, 128)]
         if m in ("scrypt",):
             ls = ls[::3] + [33, 64, 65]
@@ -1936,6 +1946,12 @@ def c16(ctx):
     for sl in (range(0, 130) if not quick else list(range(40, 70)) + [0, 1, 115, 116, 127, 128]):
         cmds2.append("pbkdf2 %s %s 1 %d" % (bytes(rng.randrange(256) for _ in range(rng.choice((5, 64, 70)))).hex(),
                                             bytes(rng.randrange(256) for _ in range(sl)).hex() or "=", rng.choice((32, 64, 96))))
+    # long derived keys: the block counter INT(i) beyond 8, 16 (and, thorough, 17) bits; selected blocks are judged
+    for dkl, sel in ((257 * 32 + 5, "1,2,255,256,257,258"), (65537 * 32 + 32, "1,255,256,257,65535,65536,65537,65538")) + \
+            (() if quick else ((131073 * 32, "65536,65537,131071,131072,131073"),)):
+        for sl in (8, 20, 52, 60):
+            cmds2.append("pbkdf2sel %s %s 1 %d %s" % (bytes(rng.randrange(256) for _ in range(9)).hex(), bytes(rng.randrange(256) for _ in range(sl)).hex(), dkl, sel))
+    cmds2.append("pbkdf2sel %s %s 2 %d %s" % (bytes(rng.randrange(256) for _ in range(9)).hex(), bytes(rng.randrange(256) for _ in range(16)).hex(), 300 * 32, "1,255,256,257,300"))
     ev2 = run_prim(ctx, cmds2)
     vs = judge_prim(ctx, ev1, "dg", par=12, chunk=150) + judge_prim(ctx, ev2, "mac", par=8, chunk=100)
     attribute(ctx)
